@@ -18,6 +18,7 @@ type c14Step struct {
 	Out  bool     `json:"out,omitempty"`
 	Alt  bool     `json:"alt,omitempty"` // the secondary files named in Args hold their partner's content (same path, other content)
 	Ext  string   `json:"ext,omitempty"` // with Out: extension of the -o file (gts derives the output format from .fasta/.gb/.genbank)
+	Sin  int      `json:"sin,omitempty"` // standard input of the cached run: 0 a pipe, 1 a regular file, 2 a regular file positioned behind a line the caller consumed
 	Aux  bool     `json:"aux,omitempty"` // another invocation sharing the cache directory (gts cache list / purge): run, not compared
 }
 
@@ -68,10 +69,10 @@ func c14Check(c c14Case) *Violation {
 		}
 		want := uncached(s)
 		setSecondary(s.Args, s.Alt)
-		got := env.run(expandArgs(s.Args), pool[s.In], s.Out, s.Ext)
+		got := env.withStdin(s.Sin).run(expandArgs(s.Args), pool[s.In], s.Out, s.Ext)
 		hist := []string{}
 		for _, p := range c.Steps[:i+1] {
-			hist = append(hist, fmt.Sprintf("[gts %q < %s out=%v%s alt=%v]", p.Args, p.In, p.Out, p.Ext, p.Alt))
+			hist = append(hist, fmt.Sprintf("[gts %q < %s out=%v%s alt=%v stdin=%s]", p.Args, p.In, p.Out, p.Ext, p.Alt, []string{"pipe", "file", "file-at-offset"}[mod(p.Sin, 3)]))
 		}
 		if got.Exit != want.Exit {
 			return viol("exit-status", "after %s: cached run exits %d, --no-cache exits %d (stderr %q vs %q)", strings.Join(hist, " ; "), got.Exit, want.Exit, clipStr(got.Stderr, 200), clipStr(want.Stderr, 200))
@@ -99,6 +100,9 @@ func c14Classify(c c14Case) (bool, []string) {
 		}
 		if s.Alt {
 			labels = append(labels, "secondary-file-rewritten")
+		}
+		if s.Sin > 0 {
+			labels = append(labels, "stdin:"+[]string{"pipe", "file", "file-at-offset"}[mod(s.Sin, 3)])
 		}
 		if s.In == "bad" || s.In == "garbage" || s.In == "empty" || s.In == "bigbad" {
 			labels = append(labels, "invalid-input")
@@ -191,6 +195,7 @@ func c14Gen(t *rapid.T) c14Case {
 		v := vars[rapid.IntRange(0, len(vars)-1).Draw(t, "variant")]
 		st := c14Step{Args: append([]string{cmd}, v...), In: in, Out: rapid.IntRange(0, 3).Draw(t, "out") == 0}
 		st.Alt = rapid.IntRange(0, 3).Draw(t, "alt") == 0
+		st.Sin = rapid.SampledFrom([]int{0, 0, 0, 1, 2}).Draw(t, "sin")
 		if st.Out {
 			st.Ext = rapid.SampledFrom([]string{"", "", ".fasta", ".gb", ".genbank", ".txt"}).Draw(t, "ext")
 		}
@@ -224,6 +229,9 @@ func TestC14(t *testing.T) {
 		}
 		for _, a := range vars {
 			sa := func(in string, out bool) c14Step { return c14Step{Args: append([]string{cmd}, a...), In: in, Out: out} }
+			ssin := func(in string, sin int) c14Step {
+				return c14Step{Args: append([]string{cmd}, a...), In: in, Sin: sin}
+			}
 			salt := func(in string) c14Step { return c14Step{Args: append([]string{cmd}, a...), In: in, Alt: true} }
 			se := func(in, ext string) c14Step {
 				return c14Step{Args: append([]string{cmd}, a...), In: in, Out: true, Ext: ext}
@@ -240,6 +248,8 @@ func TestC14(t *testing.T) {
 				{Steps: []c14Step{sa("small", false), salt("small"), sa("small", false), salt("small")}},
 				{Steps: []c14Step{sa("small", false), se("small", ".fasta"), sa("small", false), se("small", ".gb")}},
 				{Steps: []c14Step{se("smallfa", ".gb"), sa("smallfa", false), se("smallfa", ".fasta"), se("smallfa", ".genbank")}},
+				{Steps: []c14Step{ssin("small", 2), sa("small", false), ssin("two", 1), ssin("small", 1)}},
+				{Steps: []c14Step{sa("two", false), ssin("two", 2), ssin("big", 2), sa("big", false)}},
 			} {
 				if !e.try(c) {
 					return
